@@ -1,6 +1,7 @@
 package gen
 
 import (
+	"fmt"
 	"strings"
 
 	"pgregory.net/rapid"
@@ -107,7 +108,16 @@ func (d D) textScaled(base func() string) (string, string, *Scale) {
 		return "", "large", &Scale{Open: s, Count: n}
 	case 7: // long identifier / many branches
 		n := d.Int(1, 20000, "len")
-		switch d.Pick(3, "longkind") {
+		switch d.Pick(4, "longkind") {
+		case 3:
+			// a chain of definitions, each mentioning the next one twice: the type DAG has depth n
+			k := 2 + n%40
+			var sb strings.Builder
+			for i := 0; i < k; i++ {
+				fmt.Fprintf(&sb, "type A%d = A%d %s A%d\n", i, i+1, d.Of([]string{"*", "-*"}, "op"), i+1)
+			}
+			fmt.Fprintf(&sb, "type A%d = 1\n", k)
+			return sb.String(), "definition-chain", nil
 		case 0:
 			return "", "long-identifier", &Scale{Prefix: "type ", Open: "a", Suffix: " = 1", Count: n}
 		case 1:
